@@ -1,8 +1,57 @@
-import Cirbo.Model.Gen3
-/-! # C08 (placeholder until the theorems are in)
--- OBLIGATION: c08_placeholder
+import Cirbo.Proofs.GenMul
+/-!
+# C08 — Multiplier and squarer generators compute exact products
+
+-- OBLIGATION: c08_generators_only_add_fresh_gates
+-- OBLIGATION: c08_partial_products
+-- OBLIGATION: c08_mul_alter
+-- OBLIGATION: c08_mul_default_partial
+-- PARTIAL: proved: the frame theorem for every mode (all are Prog programs), the partial-product matrix (sum_i 2^i*row_i = a*b), add_mul_alter = a*b exactly (positional), add_mul (DEFAULT) = a*b as a weighted sum with strictly increasing levels (that the levels are exactly 0,1,2,... — i.e. the positional decode and the n+m width — is not proved yet). Karatsuba (both variants, all recursion thresholds), Dadda, Wallace, 2^k-1 mode and both squarers are modelled one-to-one (Model/Gen3.lean) and compared gate for gate with the code on every run (widths up to 40x40, 48..56 for the squarer split), and the search checks values exhaustively/densely and the result widths on the real generators; their value theorems are not proved yet.
 -/
 namespace Cirbo
-theorem c08_placeholder : True := trivial
-#print axioms c08_placeholder
+
+theorem c08_generators_only_add_fresh_gates {α} (p : Prog α) {st st' : GSt} {a : α}
+    (h : p.run st = .ok (a, st')) (hw : WFS st.c) : GenFrame st.c st'.c := run_frame p h hw
+
+/-- the partial-product matrix used by every mode: row `i` is `b_i · a`, so `Σ 2^i·row_i = a·b` -/
+theorem c08_partial_products {st st' : GSt} {a b : List Label} {rows : List (List Label)}
+    (h : (ppRows a b []).run st = .ok (rows, st')) (hw : WFS st.c)
+    (ha : ∀ l ∈ a, l ∈ st.c.labels) (hb : ∀ l ∈ b, l ∈ st.c.labels) {bb v : Label → Bool} (hv : IsValB st.c bb v) :
+    rows.length = b.length ∧ (∀ r ∈ rows, r.length = a.length) ∧
+    ∃ v', IsValB st'.c bb v' ∧ (∀ l ∈ st.c.labels, v' l = v l) ∧ rowsVal v' rows = valLE v a * valLE v b := by
+  obtain ⟨v', h1, h2, h3⟩ := run_total h hw hv
+  obtain ⟨rows', e1, e2, e3, e4, _⟩ := sem_ppRows _ _ _ h3
+  simp only [List.nil_append] at e1; subst e1
+  refine ⟨e2, e3, v', h1, h2, ?_⟩
+  rw [e4, valLE_congr (fun l hl => h2 l (ha l hl)), valLE_congr (fun l hl => h2 l (hb l hl))]
+
+/-- **`add_mul_alter`** on arbitrary host gates: the result is exactly `a·b` -/
+theorem c08_mul_alter {st st' : GSt} {x y out : List Label} {be : Bool}
+    (h : (addMulAlter x y be).run st = .ok (out, st')) (hw : WFS st.c)
+    (hx : ∀ l ∈ x, l ∈ st.c.labels) (hy : ∀ l ∈ y, l ∈ st.c.labels) {b v : Label → Bool} (hv : IsValB st.c b v) :
+    ∃ v', IsValB st'.c b v' ∧ (∀ l ∈ st.c.labels, v' l = v l) ∧
+      valLE v' (revIf out be) = valLE v (revIf x be) * valLE v (revIf y be) := by
+  obtain ⟨v', h1, h2, h3⟩ := run_total h hw hv
+  refine ⟨v', h1, h2, ?_⟩
+  rw [sem_addMulAlter h3, valLE_congr (fun l hl => h2 l (hx l (mem_revIf.mp hl))),
+    valLE_congr (fun l hl => h2 l (hy l (mem_revIf.mp hl)))]
+
+/-- **`add_mul` (DEFAULT)**: the returned bits carry strictly increasing levels whose weighted sum
+is `a·b` -/
+theorem c08_mul_default_partial {st st' : GSt} {x y out : List Label} {be : Bool}
+    (h : (addMul x y be).run st = .ok (out, st')) (hw : WFS st.c)
+    (hx : ∀ l ∈ x, l ∈ st.c.labels) (hy : ∀ l ∈ y, l ∈ st.c.labels) {b v : Label → Bool} (hv : IsValB st.c b v) :
+    ∃ v', IsValB st'.c b v' ∧ (∀ l ∈ st.c.labels, v' l = v l) ∧
+      ∃ lv : List (Nat × Label), revIf out be = lv.map (·.2) ∧ (lv.map (·.1)).Pairwise (· < ·) ∧
+        wsum v' lv = valLE v (revIf x be) * valLE v (revIf y be) := by
+  obtain ⟨v', h1, h2, h3⟩ := run_total h hw hv
+  obtain ⟨lv, e1, e2, e3⟩ := sem_addMul_weighted h3
+  refine ⟨v', h1, h2, lv, e1, e2, ?_⟩
+  rw [e3, valLE_congr (fun l hl => h2 l (hx l (mem_revIf.mp hl))), valLE_congr (fun l hl => h2 l (hy l (mem_revIf.mp hl)))]
+
+#print axioms c08_generators_only_add_fresh_gates
+#print axioms c08_partial_products
+#print axioms c08_mul_alter
+#print axioms c08_mul_default_partial
+
 end Cirbo
